@@ -123,9 +123,11 @@ def gen_case(cseed: int, tier: str) -> dict[str, Any]:
     mapping = w.choice(["low", "high"])
     feats = {x for x in progen.ALL_FEATURES if w.random() < 0.45}
     feats |= {"data"}
-    feats -= {"map", "far_banks", "reloc", "defines"}
+    feats -= {"map", "far_banks", "defines"}
     if w.random() < 0.5:
         feats |= {"macros", "for"}
+    if w.random() < 0.4:
+        feats |= {"reloc"}
     prog = progen.gen_program(w, mapping, feats, [], size=w.choice([4, 8, 12]))
     delta = w.choice(DELTAS)
     recs = gen_records(w, delta)
